@@ -193,7 +193,84 @@ pub fn run_c15(ctx: &Ctx, rep: &mut Report) {
             }
             s2 += step;
         }
+        // the same square asked again after one man has moved elsewhere (every relocation a -> b and every
+        // removal; sampled when the board is crowded): what a search does between two lookups
+        if !miri {
+            let men: Vec<u8> = (0..64u8).filter(|t| occ1 >> t & 1 == 1 && *t != s1).collect();
+            let all = men.len() <= 24;
+            for a in men.iter() {
+                check_slider(s1, occ1, rep);
+                check_slider(s1, occ1 ^ 1u64 << a, rep);
+                rep.count("ev_history_pairs");
+                for b in 0..64u8 {
+                    if occ1 >> b & 1 == 1 || !(all || rng.chance(1, 4)) {
+                        continue;
+                    }
+                    check_slider(s1, occ1, rep);
+                    check_slider(s1, occ1 ^ 1u64 << a ^ 1u64 << b, rep);
+                    rep.count("ev_history_pairs");
+                    rep.count("ev_history_relocations");
+                }
+            }
+        }
         rep.seen(hash_bytes(&[s1, 1]) ^ occ1.wrapping_mul(0x9E3779B97F4A7C15));
+    });
+    // the same with few men on the board, systematically: every priming square, every single-man
+    // occupancy and samples of two- and three-man occupancies; asked squares = all (single man) or the
+    // index neighbours of the priming square (a memo keyed by square index and an extract of the
+    // occupancy aliases adjacent indices first)
+    ctx.cases(rep, "history-sparse", (64 + ctx.nshards as u64 - 1) / ctx.nshards as u64, |gid, rng, rep| {
+        if gid >= 64 || (miri && gid % 21 != 0) {
+            return;
+        }
+        let s1 = gid as u8;
+        let own = 1u64 << s1;
+        let neigh: Vec<u8> = [1i16, -1, 8, -8, 7, -7, 9, -9].iter().map(|d| ((s1 as i16 + d + 64) % 64) as u8).collect();
+        let singles = if miri { 4 } else { 64 };
+        for t in 0..singles {
+            let t = if miri { rng.below(64) as u8 } else { t as u8 };
+            for with_own in [false, true].iter() {
+                let occ1 = 1u64 << t | if *with_own { own } else { 0 };
+                let step = if miri { 17 } else { 1 };
+                let mut s2 = 0u8;
+                while s2 < 64 {
+                    check_slider(s1, occ1, rep);
+                    check_slider(s2, occ1, rep);
+                    check_slider(s1, occ1, rep);
+                    check_slider(s2, (occ1 & !own) | 1u64 << s2, rep);
+                    rep.add("ev_history_pairs", 2);
+                    s2 += step;
+                }
+            }
+        }
+        let samples = if miri { 3 } else { 400 };
+        for i in 0..samples {
+            let mut occ1 = 1u64 << rng.below(64) | 1u64 << rng.below(64);
+            if i % 2 == 1 {
+                occ1 |= 1u64 << rng.below(64);
+            }
+            if rng.chance(1, 2) {
+                occ1 |= own;
+            }
+            // one of the men on the rays of the priming square, so that the answer is not the empty-board one
+            if rng.chance(2, 3) {
+                let rays = walk_rays(s1, 0, &ORTH) | walk_rays(s1, 0, &DIAG);
+                let k = rng.below(rays.count_ones() as usize);
+                let mut r = rays;
+                for _ in 0..k {
+                    r &= r - 1;
+                }
+                occ1 |= r & r.wrapping_neg();
+            }
+            for s2 in neigh.iter() {
+                for d in [0u64, own, own | 1u64 << s2].iter() {
+                    check_slider(s1, occ1, rep);
+                    check_slider(*s2, occ1 ^ d, rep);
+                    rep.count("ev_history_pairs");
+                }
+            }
+        }
+        rep.count("ev_history_sparse_squares");
     });
 }
 
@@ -586,6 +663,59 @@ pub fn run_c13(ctx: &Ctx, rep: &mut Report) {
         }
         if s == 12 {
             rep.sample(format!("e2 -> all 320 moves e2xx[qrbn]? rendered and re-parsed, e.g. {}", ChessMove::new(sq, Square::new(28), None)));
+        }
+    });
+    // call-history independence: parsing a text must not depend on what was parsed before it (a memo of the
+    // last answer, a reused scratch buffer).  Each canonical rendering is parsed right after a *relative*
+    // of it - the same text padded, truncated, extended, re-cased, with another promotion letter - and
+    // must still give exactly its move; the relative itself is judged by the stateless checks.
+    ctx.cases(rep, "history", (64 + ctx.nshards as u64 - 1) / ctx.nshards as u64, |gid, rng, rep| {
+        if gid >= 64 {
+            return;
+        }
+        let s = gid as u8;
+        if miri && s % 9 != 0 {
+            return;
+        }
+        let promos = [None, Some(Piece::Queen), Some(Piece::Rook), Some(Piece::Bishop), Some(Piece::Knight)];
+        let dsts: Vec<u8> = if miri { vec![0, 28, 63] } else { (0..64).collect() };
+        for d in dsts {
+            for p in promos.iter() {
+                let m = ChessMove::new(Square::new(s), Square::new(d), *p);
+                let t = format!("{}", m);
+                let mut relatives: Vec<String> = vec![
+                    format!("{}\u{0}", t),
+                    format!("{}\u{0}\u{0}", t),
+                    format!("{}\u{0}\u{0}\u{0}", t),
+                    format!("{} ", t),
+                    format!("{}q", &t[..4]),
+                    format!("{}n\u{0}", &t[..4]),
+                    t[..4].to_string(),
+                    t[..3].to_string(),
+                    t.to_uppercase(),
+                    format!("{}{}", &t[2..4], &t[..2]),
+                    format!("{}x", t),
+                ];
+                relatives.push(format!("{}{}", t, rng.pick_str(WEIRD)));
+                for r in relatives.iter() {
+                    c13_text(rep, r);
+                    rep.evaluations += 1;
+                    rep.count("ev_history_pairs");
+                    match ChessMove::from_str(&t) {
+                        Ok(m2) if m2 == m => {}
+                        other => rep.violation("C13/move-roundtrip/after-related-parse", format!("after parsing {:?}: {:?} -> {:?} -> {:?}", r, m, t, other)),
+                    }
+                }
+                // squares too
+                let sqt = &t[..2];
+                for r in [format!("{}\u{0}", sqt), format!("{}1", sqt), sqt[..1].to_string(), sqt.to_uppercase()].iter() {
+                    let _ = Square::from_str(r);
+                    match Square::from_str(sqt) {
+                        Ok(q) if q == Square::new(s) => {}
+                        other => rep.violation("C13/square-roundtrip/after-related-parse", format!("after parsing {:?}: {:?} -> {:?}", r, sqt, other)),
+                    }
+                }
+            }
         }
     });
     // adversarial text
